@@ -16,7 +16,8 @@
  *     the SDU is complete after the commit
  *   - the radio's receive side is empty: nothing is delivered
  *
- * case parameters: CFG (shims/sdu.cpp), TXMAX, ROUNDS, N payload size of the SDU (-1: symbolic)
+ * case parameters: CFG (shims/sdu.cpp), TXMAX, ROUNDS, N payload size of the SDU (-1: symbolic),
+ *                  AV bit i: the radio has a buffer for its i-th allocation request (-1: symbolic)
  */
 #include "vf.h"
 
@@ -102,6 +103,7 @@ void harness(void)
     for (int i = 0; i < rounds; ++i) i_ll[i] = in_bool();
     J = (unsigned)in_range(0, mtu + 4 - 1);
     if (all_avail) for (int i = 0; i < MAXREQ; ++i) avail[i] = 1;
+    if ((long)CASE(AV) >= 0) { all_avail = (long)CASE(AV) == 0xffff; for (int i = 0; i < MAXREQ; ++i) avail[i] = (int)(((long)CASE(AV) >> i) & 1); }   /* case split: which requests the radio can serve */
 
     txbuf = (uint8_t*)vf_alloc(txmax);
     memset(txbuf, 0, txmax);
